@@ -73,8 +73,14 @@ def instrument_text(src, hooks, path):
 def all_leaf_hooks():
     import json
     import importlib.resources as pr
-    from dynapyt.utils.hooks import all_leaves
-
     with pr.files("dynapyt.utils").joinpath("hierarchy.json").open("r") as f:
         h = json.load(f)
-    return h, sorted(set(all_leaves(h)))
+
+    def _leaves(d):
+        for k, v in d.items():
+            if v:
+                yield from _leaves(v)
+            else:
+                yield k
+
+    return h, sorted(set(_leaves(h)))
